@@ -465,6 +465,8 @@ func kindSort(kind string) Sort {
 		return arrSort(SInt, SBool)
 	case "map", "seq", "array":
 		return arrSort(SInt, SInt)
+	case "map2":
+		return arrSort(SInt, arrSort(SInt, SInt))
 	}
 	return SInt
 }
